@@ -72,7 +72,7 @@ var mapModel = porcupine.Model{
 		}
 		return true, st
 	},
-	Equal: func(a, b interface{}) bool { return a.(int64) == b.(int64) },
+	Equal:             func(a, b interface{}) bool { return a.(int64) == b.(int64) },
 	DescribeOperation: func(input, output interface{}) string { return input.(hop).String() },
 }
 
